@@ -29,6 +29,7 @@ import (
 	"context"
 	"fmt"
 	"io"
+	"net"
 	"time"
 
 	pb "github.com/KevoDB/kevo/proto/kevo/replication"
@@ -738,3 +739,44 @@ func (c *clientStream) Recv() (*pb.WALStreamResponse, error) {
 		n.wait(st.cctx, -1)
 	}
 }
+
+// ---------------------------------------------------------------- listener
+
+// Listener stands in for the TCP listener of the primary's gRPC server when
+// replication.Manager itself runs in the simulation: grpc's Serve parks in
+// Accept until the listener is closed. Connections never arrive here - the
+// service is reached through Net.
+type Listener struct {
+	addr   string
+	closed chan struct{}
+	done   bool
+}
+
+func NewListener(addr string) *Listener {
+	l := &Listener{addr: addr, closed: make(chan struct{})}
+	simrt.AtTeardown(func() { l.shut() })
+	return l
+}
+
+func (l *Listener) shut() {
+	if !l.done {
+		l.done = true
+		close(l.closed)
+	}
+}
+
+func (l *Listener) Accept() (net.Conn, error) {
+	simrt.Yield(simrt.CChan)
+	<-l.closed
+	simrt.Reacquire()
+	return nil, net.ErrClosed
+}
+
+func (l *Listener) Close() error { l.shut(); return nil }
+
+type simAddr string
+
+func (a simAddr) Network() string { return "sim" }
+func (a simAddr) String() string  { return string(a) }
+
+func (l *Listener) Addr() net.Addr { return simAddr(l.addr) }
